@@ -75,6 +75,10 @@ pub fn run_case(env: &Env, ctx: &mut Ctx, idx: u64) {
                     Call { entry: e, src: s.to_string(), path: None, include_paths: vec![] }
                 }
                 6 => Call { entry: *rng.pick(ENTRIES), src: rng.pick(POLLUTERS).to_string(), path: None, include_paths: vec![] },
+                _ if ctx.tier == Tier::Tiny => {
+                    let (s, e) = *rng.pick(SENSITIVE);
+                    Call { entry: e, src: s.to_string(), path: None, include_paths: vec![] }
+                }
                 _ => Call { entry: *rng.pick(ENTRIES), src: env.corpus.pick_program(&mut rng).to_string(), path: None, include_paths: vec![] },
             };
             l.push(c);
